@@ -290,6 +290,12 @@ func c07HeaderSampled(rt *rapid.T) {
 	strict := rapid.Bool().Draw(rt, "strict")
 	codec := segCodec(lz)
 	if rapid.Bool().Draw(rt, "usedCodec") && !acceptsIntact(codec, b) {
+		if b.lz && len(b.enc) > 32768 {
+			// the library's own LZ4 output for a large payload may be undecodable (open finding DEP-lz4-offset-wrap-65536,
+			// judged by C06/C08): this base cannot serve as "intact"
+			rec.Excluded("DEP-lz4-offset-wrap-65536")
+			return
+		}
 		rt.Fatalf("base %s: the intact segment is refused", b.name)
 	}
 	if ok, why := headerFault(b, codec, p, strict); !ok {
@@ -426,6 +432,12 @@ func c07PayloadSampled(rt *rapid.T) {
 	}
 	codec := segCodec(lz)
 	if rapid.Bool().Draw(rt, "usedCodec") && !acceptsIntact(codec, b) {
+		if b.lz && len(b.enc) > 32768 {
+			// the library's own LZ4 output for a large payload may be undecodable (open finding DEP-lz4-offset-wrap-65536,
+			// judged by C06/C08): this base cannot serve as "intact"
+			rec.Excluded("DEP-lz4-offset-wrap-65536")
+			return
+		}
 		rt.Fatalf("base %s: the intact segment is refused", b.name)
 	}
 	if ok, why := rejectedSeg(codec, bytes.NewReader(work)); !ok {
@@ -472,6 +484,12 @@ func c07Structured(rt *rapid.T) {
 	b := mkBase(gen.Expand(rapid.IntRange(0, 3).Draw(rt, "class"), rapid.Uint64().Draw(rt, "seed"), plen), rapid.Bool().Draw(rt, "sc"), lz)
 	codec := segCodec(lz)
 	if rapid.Bool().Draw(rt, "usedCodec") && !acceptsIntact(codec, b) {
+		if b.lz && len(b.enc) > 32768 {
+			// the library's own LZ4 output for a large payload may be undecodable (open finding DEP-lz4-offset-wrap-65536,
+			// judged by C06/C08): this base cannot serve as "intact"
+			rec.Excluded("DEP-lz4-offset-wrap-65536")
+			return
+		}
 		rt.Fatalf("base %s: the intact segment is refused", b.name)
 	}
 	tried := 0
